@@ -131,6 +131,19 @@ func NewHTTP(name string, useTLS bool, rec *Recorder) *HTTPTarget {
 	return t
 }
 
+// NewHTTP2 starts a recording HTTPS server on loopback that offers HTTP/2 (ALPN h2) as well as HTTP/1.1.
+func NewHTTP2(name string, rec *Recorder) *HTTPTarget {
+	t := &HTTPTarget{Name: name, rec: rec, stop: make(chan struct{})}
+	t.Srv = httptest.NewUnstartedServer(http.HandlerFunc(t.handle))
+	t.Srv.Config.ConnState = func(c net.Conn, s http.ConnState) {
+		rec.add(Event{Ev: "Conn", Server: name, Conn: c.RemoteAddr().String(), State: s.String(), TLS: true})
+	}
+	t.Srv.Config.ErrorLog = log.New(io.Discard, "", 0)
+	t.Srv.EnableHTTP2 = true
+	t.Srv.StartTLS()
+	return t
+}
+
 func bodyAllowed(status int) bool {
 	return !(status >= 100 && status <= 199 || status == 204 || status == 304)
 }
@@ -221,6 +234,14 @@ func (t *HTTPTarget) handle(w http.ResponseWriter, r *http.Request) {
 		// a complete answer, but not at once (the exchange is in flight for a while)
 		select {
 		case <-time.After(150 * time.Millisecond):
+		case <-t.stop:
+		}
+		w.WriteHeader(200)
+		_, _ = io.WriteString(w, "ok\n")
+	case "sleepms":
+		// a complete 200 answer after <status> milliseconds (at least)
+		select {
+		case <-time.After(time.Duration(b.Status) * time.Millisecond):
 		case <-t.stop:
 		}
 		w.WriteHeader(200)
